@@ -605,7 +605,14 @@ class Parser:
             elif self.at("?"):
                 raise Unsupported("`?` operator", x.pos)
             elif self.at("("):
-                raise Unsupported("call of a computed function value", x.pos)
+                # (genukk) `(cost)(a, b)`: call of a closure held in a local / a field (declared abstract in the spec)
+                inner = e.e if e.kind == "paren" else None
+                if inner is not None and inner.kind == "var":
+                    e = N("call", x.pos, path=[inner.name], args=self.args())
+                elif inner is not None and inner.kind == "field" and self_path(inner) is not None:
+                    e = N("call", x.pos, path=[self_path(inner)], args=self.args())
+                else:
+                    raise Unsupported("call of a computed function value", x.pos)
             else:
                 return e
 
@@ -844,6 +851,7 @@ class FnTranslator:
         self.scopes = []            # list of dict rust name -> Var
         self.used_abs = []          # abstract fns used (parameters of the generated function)
         self.loop_depth = 0
+        self.fn_aliases = {}        # (genukk) local name -> key of an abstract function (`let cost = &self.ukkonen.cost;`)
 
     # ---------------------------------------------------------------- helpers
     def err(self, msg, node=None):
@@ -900,18 +908,24 @@ class FnTranslator:
         # shadowing: allowed in the same scope (old binding dead), refused across scopes inside nested blocks
         # (at the top level of the function body a `let` may shadow a parameter: the parameter is dead from there on)
         top_level = self.loop_depth == 0 and len(self.scopes) == 2
+        shadows = False
         for sc in self.scopes[:-1]:
             if name in sc and not nested_ok and not top_level:
+                if self.spec.get("shadow_fresh"):
+                    # (genukk) the inner variable gets a Lean name of its own (primed), the outer one stays reachable by its
+                    # name when the block ends (look-up goes through the scope stack by Rust name)
+                    shadows = True
+                    break
                 self.err("`%s` shadows a variable of an enclosing block (not translated)" % name, node)
-        v = Var(name, self.fresh_lean(name), ty, mutable, ref_elem)
+        v = Var(name, self.fresh_lean(name, shadows), ty, mutable, ref_elem)
         self.scopes[-1][name] = v
         return v
 
-    def fresh_lean(self, name):
+    def fresh_lean(self, name, avoid_same=False):
         """Lean name for the Rust variable `name`: its own name, primed while another live variable (e.g. the field
         `self.mask` next to a local `mask`) already uses it"""
         lean = lean_name(name)
-        live = set(v.lean for sc in self.scopes for k, v in sc.items() if k != name)
+        live = set(v.lean for sc in self.scopes for k, v in sc.items() if k != name or avoid_same)
         while lean in live:
             lean += "'"
         return lean
@@ -960,7 +974,7 @@ class FnTranslator:
                 out.append(r)
         elif k == "exprs":
             e = n.e
-            if e.kind == "mcall" and e.name in ("push",):
+            if e.kind == "mcall" and e.name in SEQ_MUTATORS:
                 r = self._lhs_root(e.recv)
                 if r not in decl and r not in out:
                     out.append(r)
@@ -1343,6 +1357,8 @@ class FnTranslator:
 
     def call(self, e, code, expected):
         path = "::".join(e.path)
+        if len(e.path) == 1 and e.path[0] in self.fn_aliases and not any(e.path[0] in sc for sc in self.scopes):
+            path = self.fn_aliases[e.path[0]]
         if e.path == ["Some"] and len(e.args) == 1:
             s, t = self.expr(e.args[0], code, expected.elem if isinstance(expected, TOption) else None)
             return "some " + atom(s), TOption(t)
@@ -1498,6 +1514,13 @@ class FnTranslator:
                 self.let(N("let", s.pos, pat=p, ty=None, init=e), code)
             return
         name = s.pat.name
+        # (genukk) `let cost = &self.ukkonen.cost;`: a local name for a closure field the spec declares abstract
+        ini = s.init
+        while ini.kind == "paren" or (ini.kind == "un" and ini.op == "&"):
+            ini = ini.e
+        if ini.kind == "field" and self_path(ini) in self.absfns and s.ty is None:
+            self.fn_aliases[name] = self_path(ini)
+            return
         want = self.declared_type(name, s.ty, s)
         val, t = self.expr(s.init, code, want)
         if want is not None and t != want:
@@ -1530,6 +1553,38 @@ class FnTranslator:
             if t != v.ty:
                 self.err("assignment of %r to `%s` : %r" % (t, name, v.ty), s)
             code.let(v.lean, val)
+            return
+        if lhs.kind == "index" and lhs.base.kind == "index" and lhs.base.base.kind in ("var", "field") \
+                and lhs.idx.kind != "range" and lhs.base.idx.kind != "range":
+            # (genukk) `v[i][j] = e` / `v[i][j] op= e` on a vector of vectors: read row `i`, write cell `j`, write the row back
+            root = self._lhs_root(lhs.base.base)
+            v = self.lookup(root, lhs)
+            if not (isinstance(v.ty, TSeq) and isinstance(v.ty.elem, TSeq)):
+                self.err("nested element assignment into %r" % (v.ty,), s)
+            cell_ty = v.ty.elem.elem
+            if s.op is None:
+                val, t = self.expr(s.rhs, code, cell_ty)
+            row, _, wb = self.place(lhs.base, code)
+            j, jt = self.expr(lhs.idx, code, TInt("usize"))
+            if jt != TInt("usize"):
+                self.err("index of type %r" % (jt,), lhs.idx)
+            if not re.fullmatch(r"[\w.']+", j):
+                tj = self.tmp()
+                code.let(tj, j)
+                j = tj
+            if s.op is not None:
+                old = self.tmp()
+                code.bind(old, ("call", "Rs.idx %s %s" % (atom(row), atom(j))))
+                self.scopes.append({"%old": Var("%old", old, cell_ty)})
+                try:
+                    val, t = self.expr(N("bin", s.pos, op=s.op, l=N("var", s.pos, name="%old"), r=s.rhs), code, cell_ty)
+                finally:
+                    self.scopes.pop()
+            if t != cell_ty:
+                self.err("assignment of %r to a cell of `%s` : %r" % (t, root, v.ty), s)
+            row2 = self.tmp()
+            code.bind(row2, ("call", "Rs.setIdx %s %s %s" % (atom(row), atom(j), atom(val))))
+            wb(code, row2)
             return
         if lhs.kind == "index":
             root = self._lhs_root(lhs.base)
@@ -1564,7 +1619,102 @@ class FnTranslator:
             return
         self.err("assignment target", s)
 
+    def place(self, recv, code):
+        """(genukk) a `Vec` that is modified in place: a variable / `self.f`, or an element `v[i]` of a vector of vectors.
+        Returns (lean text of its current value, type, write-back function (code, new value))."""
+        while recv.kind == "paren" or (recv.kind == "un" and recv.op in ("&", "&mut")):
+            recv = recv.e
+        if recv.kind in ("var", "field"):
+            v = self.lookup(self._lhs_root(recv), recv)
+            return v.lean, v.ty, (lambda c, val: c.let(v.lean, val))
+        if recv.kind == "index" and recv.base.kind in ("var", "field") and recv.idx.kind != "range":
+            v = self.lookup(self._lhs_root(recv.base), recv)
+            if not (isinstance(v.ty, TSeq) and isinstance(v.ty.elem, TSeq)):
+                self.err("`v[i]` as a vector modified in place, where `v` has type %r" % (v.ty,), recv)
+            i, it = self.expr(recv.idx, code, TInt("usize"))
+            if it != TInt("usize"):
+                self.err("index of type %r" % (it,), recv.idx)
+            if not re.fullmatch(r"[\w.']+", i):
+                ti = self.tmp()
+                code.let(ti, i)
+                i = ti
+            row = self.tmp()
+            code.bind(row, ("call", "Rs.idx %s %s" % (atom(v.lean), atom(i))))
+            return row, v.ty.elem, (lambda c, val: c.bind(v.lean, ("call", "Rs.setIdx %s %s %s" % (atom(v.lean), atom(i), atom(val)))))
+        self.err("receiver of a modifying method is not a variable, `self.f` or an element `v[i]` of one", recv)
+
+    def seq_mutation(self, e, code):
+        """(genukk) `v.clear()`, `v.extend(repeat(x).take(n))`, `v.extend(a..b)`, `v.extend(a..=b)`, `v.resize(n, x)`,
+        `v.truncate(n)`, and `v[i].push(x)` — `v` as in `place`"""
+        nm = e.name
+        # arguments first (Rust evaluates the receiver place, then the arguments; only panics can be observed)
+        if nm == "clear" and not e.args:
+            cur, ty, wb = self.place(e.recv, code)
+            if not isinstance(ty, TSeq):
+                self.err("`.clear()` on %r" % (ty,), e)
+            wb(code, "([] : %s)" % ty.lean())
+            return
+        if nm == "push" and len(e.args) == 1:
+            cur, ty, wb = self.place(e.recv, code)
+            if not isinstance(ty, TSeq):
+                self.err("`.push` on %r" % (ty,), e)
+            val, t = self.expr(e.args[0], code, ty.elem)
+            if t != ty.elem:
+                self.err("`.push` of %r onto %r" % (t, ty), e)
+            wb(code, "%s ++ [%s]" % (atom(cur), val))
+            return
+        if nm == "extend" and len(e.args) == 1:
+            a = e.args[0]
+            while a.kind == "paren":
+                a = a.e
+            cur, ty, wb = self.place(e.recv, code)
+            if not isinstance(ty, TSeq):
+                self.err("`.extend` on %r" % (ty,), e)
+            if a.kind == "mcall" and a.name == "take" and len(a.args) == 1 and a.recv.kind == "call" \
+                    and a.recv.path[-1] == "repeat" and len(a.recv.args) == 1:
+                add, at = self.replicate(a.recv.args[0], a.args[0], code, ty, e)
+            elif a.kind == "range" and a.lo is not None and a.hi is not None:
+                if self.is_lit(a.lo) and not self.is_lit(a.hi):
+                    hi, ht = self.expr(a.hi, code, ty.elem)
+                    lo, lt = self.expr(a.lo, code, ht)
+                else:
+                    lo, lt = self.expr(a.lo, code, ty.elem)
+                    hi, ht = self.expr(a.hi, code, lt)
+                if lt != ht or not isinstance(lt, TInt) or lt.signed:
+                    self.err("range bounds of type %r and %r" % (lt, ht), e)
+                add = "List.range' %s (%s%s - %s)" % (atom(lo), atom(hi), " + 1" if a.incl else "", atom(lo))
+                at = TSeq(lt)
+            else:
+                self.err("`.extend(…)` of something other than `repeat(x).take(n)` or a range", e)
+            if at != ty:
+                self.err("`.extend` of %r onto %r" % (at, ty), e)
+            wb(code, "%s ++ %s" % (atom(cur), add))
+            return
+        if nm == "resize" and len(e.args) == 2:
+            cur, ty, wb = self.place(e.recv, code)
+            if not isinstance(ty, TSeq):
+                self.err("`.resize` on %r" % (ty,), e)
+            n, nt = self.expr(e.args[0], code, TInt("usize"))
+            x, xt = self.expr(e.args[1], code, ty.elem)
+            if nt != TInt("usize") or xt != ty.elem:
+                self.err("`.resize(%r, %r)` on %r" % (nt, xt, ty), e)
+            wb(code, "Rs.resize %s %s %s" % (atom(cur), atom(n), atom(x)))
+            return
+        if nm == "truncate" and len(e.args) == 1:
+            cur, ty, wb = self.place(e.recv, code)
+            if not isinstance(ty, TSeq):
+                self.err("`.truncate` on %r" % (ty,), e)
+            n, nt = self.expr(e.args[0], code, TInt("usize"))
+            if nt != TInt("usize"):
+                self.err("`.truncate(%r)`" % (nt,), e)
+            wb(code, "%s.take %s" % (atom(cur), atom(n)))
+            return
+        self.err("method `.%s(…)` as a statement is outside the translated subset" % nm, e)
+
     def expr_stmt(self, e, code):
+        if e.kind == "mcall" and (e.name in ("clear", "extend", "resize", "truncate")
+                                  or (e.name == "push" and e.recv.kind == "index")):
+            return self.seq_mutation(e, code)
         if e.kind == "macro" and e.name in ("assert", "debug_assert") and len(e.args) >= 1:
             c, t = self.expr(e.args[0], code, TBool())
             if not isinstance(t, TBool):
@@ -2441,6 +2591,8 @@ def contains_kind(n, kinds, stop=()):
 
 
 LOOP_KINDS = ("while", "loop", "for")
+# (genukk) methods that modify the `Vec` they are called on (the receiver may be an element `v[i]` of a vector of vectors)
+SEQ_MUTATORS = ("push", "clear", "extend", "resize", "truncate")
 
 
 def lean_name(rust):
@@ -2737,6 +2889,34 @@ unit(name="SrcHamming", props="property C09", file="src/alignment/distance.rs",
                      toplevel=True,        # `simd::hamming` in the same file has the same header
                      params=[("alpha", "TextSlice"), ("beta", "TextSlice")], ret="u64", locals={"dist": "u64"},
                      theorem="RbV.Thm.GenSrcHamming.hamming_eq_model")])
+
+
+# ---- genukk: the approximate matchers (C09/C10) --------------------------------------------------------------------
+# `Ukkonen<F>`: the two DP columns `D: [Vec<usize>; 2]` are a list of two lists (the length 2 of the array type is a
+# hypothesis `D.length = 2` of the theorems); the user's cost closure `self.cost: F where F: Fn(u8, u8) -> u32` is the
+# abstract pure function `cost`.
+
+UKK_COST = {"self.ukkonen.cost": dict(lean="cost", args=["u8", "u8"], ret="u32")}
+
+unit(name="SrcUkkonen", props="property C09", file="src/pattern_matching/ukkonen.rs",
+     imports=["RbV.Basic.RsSemBits"], aliases={"TextSlice": "&[u8]"},
+     functions=[dict(name="Ukkonen::find_all_end", lean="findAllEnd",
+                     header="pub fn find_all_end<'a, C, T>(&'a mut self, pattern: TextSlice<'a>, text: T, k: usize,) "
+                            "-> Matches<'_, F, C, T::IntoIter> where C: Borrow<u8>, T: IntoIterator<Item = C>,",
+                     self_fields=[("D", "[Vec<usize>; 2]")],
+                     params=[("pattern", "TextSlice"), ("text", "&[u8]"), ("k", "usize")],
+                     ret="(TextSlice, Enumerate<u8>, usize, usize, usize)",
+                     struct_fields={"Matches": [("pattern", "TextSlice"), ("text", "Enumerate<u8>"), ("lastk", "usize"),
+                                                ("m", "usize"), ("k", "usize")]},
+                     shadow_fresh=True,
+                     theorem="RbV.Thm.GenSrcUkkonen.findAllEnd_init"),
+                dict(name="Matches::next", lean="next", header="fn next(&mut self) -> Option<(usize, usize)>",
+                     self_fields=[("ukkonen.D", "[Vec<usize>; 2]"), ("pattern", "TextSlice"), ("text", "Enumerate<u8>"),
+                                  ("lastk", "usize"), ("m", "usize"), ("k", "usize")],
+                     abstract_fns=UKK_COST,
+                     # `while D[col][lastk] > k { lastk -= 1 }`: `lastk` strictly decreases (and stops at cell 0, which is 0)
+                     fuel=["lastk + 1"], shadow_fresh=True,
+                     params=[], ret="Option<(usize, usize)>", theorem="RbV.Thm.GenSrcUkkonen.next_eq_model")])
 
 
 # ================================================================================================== self-test
